@@ -191,13 +191,14 @@ def classStmt (F : Facts) (D : Decls) (e : CEnv) : Stmt → Option String × CEn
           else if ifaceClause || cs.any (fun c => c.any (fun ty => ty == .nil)) then (some "tswitch-interface-or-nil-clause", e)
           else (none, e))
        else
-         let wrapped := match dyn with | some d => wrappedY D src d | none => false
-         let defaultNotLast := match defaultClause cs 0 with | some i => i + 1 != cs.length | none => false
-         let nIface := (cs.filter (fun c => c.any (fun ty => tyIsIface D ty))).length
-         if bindForm && wrapped && defaultNotLast && nIface ≥ 2 then (some "tswitch-default-not-last", e)
+         -- interface{} operand: the clause test of `_case` compares representations (F05-14, F05-15).
+         -- The input is in a class exactly when that test, applied to the clauses in source order,
+         -- selects another clause than the specification does — the position of the default clause
+         -- is no longer part of any class (F05-16, repaired by ff01288)
+         let dy : Option Dyn := dyn.map (fun d => ⟨d.t, d.ptr, [], wrappedY D src d⟩)
+         if typeSwitchY false .nextTest (matchCaseY D false bindForm dy) cs == typeSwitchG D dyn cs then (none, e)
          else if ifaceClause then (some "tswitch-interface-clause", e)
-         else if dyn.isSome && bindForm == wrapped && cs.any (fun c => !c.isEmpty) then (some "tswitch-empty-interface-representation", e)
-         else (none, e)
+         else (some "tswitch-empty-interface-representation", e)
      | _ => (none, e))
   | .host _ _ => (none, e)
 
